@@ -231,6 +231,8 @@ func c01build(s c01spec) *vE2ESpec {
 		}
 	}
 	sc.Args = args
+	// the step horizon must exceed the longest legitimate run (a /16: 65536 probes through a dozen stages)
+	sc.Horizon = 100000000
 	return sc
 }
 
